@@ -440,6 +440,11 @@ impl Search {
 
             self.board.unmake_move();
 
+            // The child was interrupted, its score is meaningless: don't use or cache it
+            if !self.is_running() || self.limits_exceeded(start) {
+                return 0;
+            }
+
             // Move is too good, opponent will not allow the game to reach this position
             if score >= beta {
                 #[cfg(rce_verif)]
